@@ -43,14 +43,17 @@ Theorem C25_settled_released_or_leaked : forall cf s0 s, start_state s0 -> reach
 Proof. exact p_settled_released_or_leaked. Qed.
 Print Assumptions C25_settled_released_or_leaked.
 
-(* The full statement "every opened file is released" is FALSE of the faithful model: a request whose newFSFile fails
+(* History (finding open-error-leak, since repaired in fs.go): the code used to have an error path — label OpenFail — on which
+   the full statement "every opened file is released" is FALSE: a request whose newFSFile fails
    after the Open (readFileHeader error: a file without Seek or with a read error and no known extension, or a corrupt
-   compressed file) drops the handle without closing it.  Witness: Open; OpenFail; close.  (finding open-error-leak) *)
+   compressed file) dropped the handle without closing it.  Witness: Open; OpenFail; close.  The label is kept in the model
+   as a regression detector: the harness emits it (and the check fails) if a failing request leaves its file open again;
+   on the repaired code that path is OpenAbort (file closed), and no generated trace contains OpenFail. *)
 Theorem C25_eventually_released_refuted : exists cf s, reach cf init s /\ settled s = true /\ 0 < nextf s /\ released s 0 = 0.
 Proof. exact p_eventually_released_refuted. Qed.
 Print Assumptions C25_eventually_released_refuted.
 
-(* ... and TRUE exactly when that error path is not taken *)
+(* ... and TRUE exactly when that error path is not taken — which is every run of the current code *)
 Theorem C25_eventually_released : forall cf s0 s, start_state s0 -> reach_nofail cf s0 s -> settled s = true ->
   (forall f, f < nextf s -> released s f = 1) /\ (forall b, b < nextb s -> bclosed s b = 1).
 Proof. exact p_eventually_released. Qed.
